@@ -76,7 +76,8 @@ class UnionSpecifier(VersionSpecifier):
                 == {0}
             ):
                 epoch = "" if left.max.epoch == 0 else f"{left.max.epoch}!"
-                version = ".".join(map(str, left.max.release[:first_different])) + ".*"
+                # use the zero-padded release: "<2||>=2.1.0" is "!=2.0.*", not "!=2.*"
+                version = ".".join(map(str, left_stable[1 : first_different + 1])) + ".*"
                 return f"!={epoch}{version}"
 
         return None
